@@ -166,7 +166,10 @@ class WriteSets:
                             if not add <= cur:
                                 cur |= add
                                 changed = True
-        out.discard("")
+        if "" in out:
+            # a direct store to the whole object (`*self = ..`) writes every field
+            out.discard("")
+            out.add("*")
         return out
 
     def _is_mut_ptr(self, b, local):
